@@ -3,7 +3,7 @@ from functools import reduce
 import pandas as pd
 
 from elexmodel.handlers import s3
-from elexmodel.utils.constants import VALID_AGGREGATES_MAPPING
+from elexmodel.utils.constants import AGGREGATE_ORDER, VALID_AGGREGATES_MAPPING
 from elexmodel.utils.file_utils import S3_FILE_PATH, TARGET_BUCKET, convert_df_to_csv
 
 
@@ -95,7 +95,10 @@ class ModelResultsHandler:
         Create final data frames of results
         """
         for agg in self.aggregates:
-            merge_on = ["postal_code", "reporting", agg]
+            # every estimand's table of one level has the same key columns (e.g. postal_code, district, county_fips
+            # for a county table in a district race), so all of them have to be merge keys
+            key_columns = [col for col in self.estimates[agg][0].columns if col in AGGREGATE_ORDER]
+            merge_on = key_columns + ["reporting"]
             # joins together dfs of the same level of aggregation (different estimands)
             agg_df = reduce(lambda x, y: pd.merge(x, y, how="inner", on=merge_on), self.estimates[agg])
             self.final_results[VALID_AGGREGATES_MAPPING.get(agg)] = agg_df
